@@ -394,6 +394,12 @@ def rule_r5_r6(ctx, rep):
     rep.floor("text collections over descendants", 2)
 
 
+# R4 (threshold guards at t-1, t, t+1), R5 (text collected over all descendants) and R6 (found-flags latched) read the shape of the evaluators; R10
+# folds every evaluator over the classes of facts its recommendation is stated in, counts on and around each threshold included
+FOLDS = {"R10": {"count": "recommendation verdicts", "min": 200, "about": ("_rule", "get_text_content", "evaluate")}}
+SUBORDINATE = {"R4": "R10", "R5": "R10", "R6": "R10"}
+
+
 def run(ctx, rep):
     rep.explanation = (
         "escape analysis of evaluate.tree / evaluate.node through the dispatch table (every strict use of a nullable Node field "
@@ -410,9 +416,9 @@ def run(ctx, rep):
     if only in (None, "R2", "R3"):
         rule_r2_r3(ctx, rep)
     if only in (None, "R4"):
-        rule_r4(ctx, rep)
+        rep.guarded("R4", rule_r4, ctx, rep)
     if only in (None, "R5", "R6"):
-        rule_r5_r6(ctx, rep)
+        rep.guarded("R5", rule_r5_r6, ctx, rep)
     if only in (None, "R10"):
         from .c19_worlds import rule_r10
         mi_ = ctx.prog.module(EVAL)
